@@ -87,6 +87,7 @@ extra = {"C08": "yes: downloads after an abandoned earlier transfer on the same 
          "R17C02": "yes: datagrams with 1 276 / 1 277 / 1 500 / 3 000 options followed by a real option, the marker and a payload (more options than a size-limited message could hold)",
          "R17C07": "yes: after an error the reply holds exactly one Content-Format value (the option is not repeatable), whatever the prepared reply carried under it",
          "R17C20": "caught at once, by a measure taken while the change was being written: the 'next use' that must reclaim is varied - a request or a pushed response on an unrelated key, a response with a Block2 option of its own, a message that gets no response, a key kept busy throughout",
+         "R18C09": "yes: the 4.13 hint names block 0 (pinned), and the oversize request arrives on a key that has seen other things before (a block-wise fetch abandoned at a later block, an unfinished upload)",
          "R4C12": "yes: the two entry points of an exchange as separate steps with equal message ids on different endpoints (model MODE split, deferred responses in the mixed driver); a disturbed other key is reported under C12 in every branch",
          "C20": "yes: expiry under block-wise traffic on other keys (model `Other` now block-wise; driver scenario `expiry-traffic`)"}
 for d in sorted(glob.glob(os.path.join(ROOT, "seeded", "*", "meta.json"))):
